@@ -7,7 +7,8 @@ cumsum / cumprod (sequential and blelloch) and diff along every axis, over 1-D s
 block, blocks smaller than the window, many-block scans) and the computed value, shape and dtype are compared with the
 denotation.  map_overlap is covered by the Overlap action: a local stencil of radius 1-2 (out[i] = ext(i-r) + A[i] + ext(i+r),
 NdArray.Stencil) under every boundary kind (reflect, periodic, nearest, constant, none) along every axis, under every chunk
-grid (blocks smaller than the depth included)."""
+grid (blocks smaller than the depth included).  Blelloch.tla models the combine plan of the parallel scan (exact for every
+block count up to 41); the combine tasks of every real Blelloch graph are validated against it (BlellochVerdict)."""
 from __future__ import annotations
 
 from .. import progcheck, replay, tlc
@@ -19,9 +20,32 @@ def plans(tier):
     return [("d1-win", 128, 1), ("d1-scan", 128, 1), ("d1-overlap", 128, 1), ("d1-scan-long", 4, 1)]
 
 
+def _corrupt_plan(evs):
+    out = []
+    for n, e in enumerate(evs):
+        if e["fn"] != "blelloch" or not e["plan"]:
+            continue
+        if n % 2 == 0:
+            e["plan"] = e["plan"][:-1]                                   # a combine step dropped
+        else:
+            e["plan"][0] = [e["plan"][0][0], e["plan"][0][1], e["plan"][0][2] + 1]     # combines with another value
+        out.append(e)
+        if len(out) >= 30:
+            break
+    return out
+
+
 def run(chk):
     rd = tlc.new_rundir("C19")
     try:
+        from ..modelcheck import add_models
+
+        # design level: the combine plan of the Blelloch scan is exact for every block count up to 41 (and the floor-stride
+        # variant is refuted); code level: the combine tasks of the real graphs are exactly that plan
+        add_models(chk, ["Blelloch:plan", "Blelloch:floor-stride-mutant"])
+        sub = progcheck.SubCheck(chk, "blelloch-plan")
+        progcheck.run_plans(sub, rd, progcheck.dev_filter([("d1-scan-long", 4, 1), ("d1-scan", 32 if chk.tier == "quick" else 128, 1)]),
+                            ("harness.obs_programs:obs_blelloch",), opts={"no_compute": True}, selftest=_corrupt_plan)
         picked = []
         for name, maxvar, stride in progcheck.dev_filter(plans(chk.tier)):
             kw, flags = progcheck.corpus_kwargs(name)
